@@ -395,11 +395,26 @@ func evalC16Invalid(w *h.Worker, k arrKind, idx []int32, nElts int) string {
 			asc = false
 		}
 	}
-	var want error
+	// both defects may be present at once: the statement does not say which of
+	// the two dedicated errors wins then, either is accepted
+	var wants []error
 	if len(idx) != nElts {
-		want = array.ErrIndexLen
-	} else if !asc {
-		want = array.ErrIndexNotAscending
+		wants = append(wants, array.ErrIndexLen)
+	}
+	if !asc {
+		wants = append(wants, array.ErrIndexNotAscending)
+	}
+	isWanted := func(err error) bool {
+		for _, x := range wants {
+			if errors.Cause(err) == x {
+				return true
+			}
+		}
+		return false
+	}
+	var want error
+	if len(wants) > 0 {
+		want = wants[0]
 	}
 	var msg string
 	if p := h.Safely(func() {
@@ -413,8 +428,8 @@ func evalC16Invalid(w *h.Worker, k arrKind, idx []int32, nElts int) string {
 			} else {
 				if err == nil {
 					msg = fmt.Sprintf("typed constructor accepted invalid input (want %v)", want)
-				} else if errors.Cause(err) != want {
-					msg = fmt.Sprintf("typed constructor returned %v, want %v", err, want)
+				} else if !isWanted(err) {
+					msg = fmt.Sprintf("typed constructor returned %v, want %v", err, wants)
 				} else if a != nil {
 					msg = "typed constructor returned an array together with an error"
 				}
@@ -433,10 +448,45 @@ func evalC16Invalid(w *h.Worker, k arrKind, idx []int32, nElts int) string {
 		}
 		if err == nil {
 			msg = fmt.Sprintf("array.New accepted invalid input (want %v)", want)
-		} else if errors.Cause(err) != want {
-			msg = fmt.Sprintf("array.New returned %v, want %v", err, want)
+		} else if !isWanted(err) {
+			msg = fmt.Sprintf("array.New returned %v, want %v", err, wants)
 		} else if g != nil {
 			msg = "array.New returned an array together with an error"
+		}
+		if msg != "" {
+			return
+		}
+		// "build nothing": a rejected Init leaves its receiver as it was, whether
+		// the receiver is new or already holds an array
+		for _, populated := range []bool{false, true} {
+			recv := &array.Array{}
+			if populated {
+				if err := recv.Init([]int32{1, 64, 70}, []uint32{7, 8, 9}); err != nil {
+					msg = "set-up Init failed: " + err.Error()
+					return
+				}
+			}
+			before := h.Digest(recv)
+			u32 := make([]uint32, nElts)
+			for i := range u32 {
+				u32[i] = uint32(100 + i)
+			}
+			err := recv.Init(idx, u32)
+			w.Trans++
+			if err == nil {
+				msg = "Array.Init accepted invalid input"
+				return
+			}
+			if h.Digest(recv) != before {
+				msg = fmt.Sprintf("a rejected Init (%v) changed its receiver (already populated: %v): something was built", err, populated)
+				return
+			}
+			if populated {
+				if v, ok := recv.Get(64); !ok || v != uint32(8) {
+					msg = fmt.Sprintf("after a rejected Init the populated receiver answers Get(64) = (%v,%v)", v, ok)
+					return
+				}
+			}
 		}
 	}); p != nil {
 		return fmt.Sprintf("panic: %v", p)
